@@ -187,11 +187,11 @@ int main(int argc, char **argv)
       Restraint const &R = menu[mi];
       vproxy *px = new vproxy(5);
       for (int a = 0; a < 5; a++) px->x[a] = cvm::rvector(geos[0].p[a][0], geos[0].p[a][1], geos[0].p[a][2]);
-      if (px->config(std::string(CV_CONF) + R.conf) != 0) { fprintf(stderr, "HARNESS-ERROR: %s rejected: %s\n", R.name.c_str(), px->errtxt.c_str()); exit(2); }
+      if (px->config(std::string(CV_CONF) + R.conf) != 0) { fprintf(stderr, "HARNESS-ERROR: %s rejected: %s\n", R.name.c_str(), px->errtxt.c_str()); exit(3); }
       std::vector<double> ratios;
       for (size_t gi = 0; gi < geos.size(); gi++) {
         for (int a = 0; a < 5; a++) px->x[a] = cvm::rvector(geos[gi].p[a][0], geos[gi].p[a][1], geos[gi].p[a][2]);
-        if (px->step(gi) != 0) { fprintf(stderr, "HARNESS-ERROR: step error in %s: %s\n", R.name.c_str(), px->errtxt.c_str()); exit(2); }
+        if (px->step(gi) != 0) { fprintf(stderr, "HARNESS-ERROR: step error in %s: %s\n", R.name.c_str(), px->errtxt.c_str()); exit(3); }
         r.count("transitions");
         r.count("evaluations");
         Vals x;
@@ -250,7 +250,7 @@ int main(int argc, char **argv)
           px->x[1] = cvm::rvector(AV[w % 4], 0, 0);
           std::string conf = "colvar {\n name d\n distance {\n group1 { atomNumbers 1 }\n group2 { atomNumbers 2 }\n }\n}\n";
           conf += std::string("abmd {\n colvars d\n forceConstant 3.0\n stoppingValue ") + num(ab.stop) + "\n decreasing " + (ab.dec ? "on" : "off") + "\n}\n";
-          if (px->config(conf) != 0) { fprintf(stderr, "HARNESS-ERROR: abmd rejected: %s\n", px->errtxt.c_str()); exit(2); }
+          if (px->config(conf) != 0) { fprintf(stderr, "HARNESS-ERROR: abmd rejected: %s\n", px->errtxt.c_str()); exit(3); }
           r.count("evaluations");
           long q = w;
           double hw = 0;  // high-water (low-water) mark
@@ -260,7 +260,7 @@ int main(int argc, char **argv)
             q /= 4;
             word += (s ? "," : "") + num(val);
             px->x[1] = cvm::rvector(val, 0, 0);
-            if (px->step(s) != 0) { fprintf(stderr, "HARNESS-ERROR: abmd step error: %s\n", px->errtxt.c_str()); exit(2); }
+            if (px->step(s) != 0) { fprintf(stderr, "HARNESS-ERROR: abmd step error: %s\n", px->errtxt.c_str()); exit(3); }
             r.count("transitions");
             // documented: xi_ref(t) = min(max_{s<=t} xi_s, xi_stop)   (mirrored for 'decreasing')
             if (s == 0) hw = val;
